@@ -33,5 +33,16 @@ CLAIMED = {
          "not-in-queue). Dynamic / static / no-handle-array configurations enumerated per job; 140-byte elements exercise the sliced swap.",
     note="Comparator is a total pre-order on a 32-bit key; element in slot i labelled i WLOG; allocator never fails; sizes beyond the bound not claimed.",
     technique="CBMC bounded symbolic execution of source/priority_queue.c, one-step induction over the heap + handle-bijection invariant"),
+ "C16": dict(
+    text="Checked/saturating add, sub, mul for u32/u64/size_t, power-of-two test and rounding, clz/ctz (5 widths), min/max (all types incl. "
+         "float/double): the production variant (gcc overflow + bit builtins) is compared by the solver with a wider-integer reference for "
+         "ALL operand values; the portable fallback variant is compiled side by side (renamed) and shown equal (add/clz/ctz for all operands; "
+         "the division-based mul guard with one operand < 2^8 (u64) / 2^4 (u32)); the x86-64 inline-asm variant is parsed from the header on "
+         "every run, executed symbolically over bit-vectors with CF/OF and proved equal to the spec for all operands with z3, the encoder "
+         "being validated against the CPU on 43k native executions. Time conversion: all 16 unit pairs for all 64-bit tick values "
+         "(floor or saturation, documented remainder), arbitrary frequencies 1..256.",
+    note="cvc5 --solve-bv-as-int=sum decides the conversion proofs (guarded by a mutated-spec twin that must fail); portable mul and "
+         "arbitrary-frequency conversion are bounded as stated because the 64x64 divider finished on no back end; msvc/arm64 variants not compiled here.",
+    technique="CBMC bit-precise equivalence checking (SAT kissat/minisat, SMT cvc5 bv-as-int) + own x86 asm-to-SMT encoder decided by z3"),
 }
 NOT_APPLICABLE = {p: PENDING for p in ["C%02d" % i for i in range(1, 21)]}
